@@ -36,6 +36,7 @@ ASSUMPTIONS = [
     "re-attaching a *pattern* to the project that already owns it is not generated (the statement is silent, the code refuses)",
     "note.mod = m is generated only for modules of the note's own project or free modules",
     "trailing empty module positions are not preserved by a load (by design); gaps elsewhere are",
+    "a module handle kept from a project object that was let go (after a restart) still counts as owned by another project: attaching it elsewhere must be refused; the simulator runs the garbage collector right after the old project is dropped",
     "after a restart from a file with cleared exists bits only the statement's invariants are asserted for the re-flagged records (position 0 holds the output module); untouched records keep their positions",
 ]
 
@@ -522,7 +523,19 @@ def execute(case):
                 if gotp != pats_before:
                     violations.append(_v("pattern_positions_preserved_by_load", after="save_load", detail={"op": i}))
                 # restart: the actor drops the old objects and continues on the loaded ones
+                # ... except, sometimes, for a couple of stale module handles: the project object they belong
+                # to is let go, the handles are not - such a module is still owned by (what is still) another
+                # project, so attaching it elsewhere stays refused
+                olds = sorted(kk for kk, o in w.mowner.items() if o == pi and kk[0] != "out")
+                keep = set()
+                if op.get("keep") and olds:
+                    for j in range(min(2, len(olds))):
+                        keep.add(olds[(op["keep"] + 7 * j) % len(olds)])
+                    probes["stale_module_handles_kept"] = probes.get("stale_module_handles_kept", 0) + len(keep)
                 for kk in [kk for kk, o in w.mowner.items() if o == pi]:
+                    if kk in keep:
+                        w.mowner[kk] = "gone"
+                        continue
                     del w.mods[kk]
                     del w.mowner[kk]
                 for kk in [kk for kk, o in w.powner.items() if o == pi]:
@@ -551,6 +564,13 @@ def execute(case):
                 w.pslots[pi] = ps
                 if None in slots:
                     probes["loaded_project_with_gap"] = probes.get("loaded_project_with_gap", 0) + 1
+                del p, loaded
+                # when the collector runs is a schedule the simulator decides: here, right after the old
+                # project object was let go
+                import gc
+
+                gc.collect()
+                p = w.projects[pi]
             else:
                 raise ValueError(op)
         except (KeyboardInterrupt, HarnessTimeout):
@@ -608,6 +628,8 @@ def generate(seed, i, tier="quick"):
             op.update(pat=r.randrange(100), l=r.randrange(8), t=r.randrange(8), mode=r.choice([0, 0, 0, 1, 2]), sel=r.randrange(52), num=r.randrange(1000), m=r.randrange(1000))
         elif k == "save_load":
             op["gaps"] = r.getrandbits(30) if r.random() < 0.6 else 0
+            if r.random() < 0.4:
+                op["keep"] = r.randrange(1, 1000)
             if r.random() < 0.25:
                 op["reflag"] = r.getrandbits(12) | (1 if r.random() < 0.5 else 0)
                 op["zero"] = r.random() < 0.3
